@@ -526,6 +526,20 @@ func (f *HistFamily) requestOrders(set []int) [][]int {
 }
 
 func (f *HistFamily) proofSets(tracked []int) [][]int {
+	if f.Or.ProofSets == "tall" {
+		// singletons, adjacent pairs, first+last, all tracked
+		var out [][]int
+		for i, a := range tracked {
+			out = append(out, []int{a})
+			if i+1 < len(tracked) {
+				out = append(out, []int{a, tracked[i+1]})
+			}
+		}
+		if len(tracked) > 2 {
+			out = append(out, []int{tracked[0], tracked[len(tracked)-1]}, append([]int(nil), tracked...))
+		}
+		return out
+	}
 	if f.Or.ProofSets != "small" {
 		return subsets(tracked, false)
 	}
